@@ -324,9 +324,30 @@ def check_c17(pid, tier):
         if not rm.violated:
             raise Broken("Replicators mutant %s not killed" % mut)
         details["mutants_killed"]["Replicators/" + mut] = rm.violated
+    # the literal reading of "confirmed after that caller asked" fails already in the design (known finding)
+    rstrict = vlib.run_tlc("Replicators", repl_cfg(callers=3, limit=2, maxfail=1, live=False).replace("INVARIANTS Bounds SuccessConfirmed NoStuck", "INVARIANTS StrictSuccessConfirmed"),
+                           extra=REPL_EXTRA, timeout=600)
+    details["strict_success_confirmed_in_design"] = "violated (known finding C17/dedup-waiter-joins-after-leader-check)" if rstrict.violated else "holds"
     rc, out = vlib.run_harness(binary, "TestReplicators", {"COMP_OUT": work, "VERIF_SEED": sd, "COMP_RUNS": 400 if quick else 20000}, timeout=3400)
     if rc != 0:
         raise Broken("replicator harness failed:\n" + out[-3000:])
+    # executions that satisfy the contract only in its weaker reading: a waiter answered by a replication whose
+    # confirmation precedes the waiter's own request
+    known = [k for k in vlib.load_known_findings() if k.get("property") == pid and k.get("id") == "dedup-waiter-joins-after-leader-check"]
+    strict_misses = []
+    for ev in vlib.read_ndjson(os.path.join(work, "replicators.ndjson")):
+        if ev.get("dec") in ("dedup", "dedup+limit", "limit") and any(c["res"] == "OK" and not c["confirmedAfterAsk"] and c["confirmedWithinOverlap"] for c in ev["callers"]):
+            strict_misses.append(ev)
+    details["strict_confirmation_misses_observed"] = len(strict_misses)
+    known_violations = 0
+    if strict_misses:
+        if known and all(ev["dec"] in known[0]["match"]["dec"] for ev in strict_misses):
+            print("KNOWN-FINDING: property=%s %s (%d execution(s) in this run)" % (pid, known[0]["what"], len(strict_misses)))
+        else:
+            for i, ev in enumerate(strict_misses[:8]):
+                path = vlib.save_replay(pid, "s%d_strict%d" % (sd, i), {"observation.json": ev})
+                print("VIOLATION property=%s replay=%s" % (pid, path))
+                known_violations += 1
     # (c) existence cache
     ex_scripts = []
     for policy in ("LRU", "FIFO"):
@@ -366,7 +387,7 @@ def check_c17(pid, tier):
         for f in ("readthrough.ndjson", "replicators.ndjson", "existence.ndjson"):
             fh.write(open(os.path.join(work, f)).read())
     n_events, rejects, vstates = validate_obs("ReadThroughContractTrace", allp)
-    violations = report(pid, sd, rejects)
+    violations = report(pid, sd, rejects) + known_violations
     for name, summ in (("read-through", rt_summ), ("existence cache", ex_summ)):
         if summ["drift"]:
             log("DRIFT property=%s (%s) %d of %d operations deviate from the design: %s" % (pid, name, summ["drift"], summ["compared"], json.dumps(summ.get("first_drifts"))[:1500]))
